@@ -60,18 +60,27 @@ def run(chk):
         nbeh += len(behs)
         scripts = [H.script_from_behaviour(b, "%s-sim%d" % (group, i), rnd, group) for i, b in enumerate(behs)]
         scripts += [H.random_script("%s-rnd%d" % (group, i), rnd, group) for i in range(per_group[1])]
+        # every fill level from empty to window + queue + 2 with a consumer that is not reading: spills up to the byte limit,
+        # queue overflow of chunks that are already saved (the file stays and keeps counting against the limit), then the stop
+        scripts += H.stop_stories(group)
         n, e, rej, k, st, hung = H.run_scripts(chk, scripts, group, group)
         handle_rejections(chk, rej, group, cov)
         tot_tr += n; tot_ev += e; tot_st += st; kinds |= k
         all_scripts += scripts
         if hung:
             cov["hung_runs"] = cov.get("hung_runs", 0) + hung
+    for group in H.EXTRA_GROUPS:
+        scripts = H.stop_stories(group) + [H.random_script("%s-rnd%d" % (group, i), rnd, group) for i in range(per_group[1])]
+        n, e, rej, k, st, hung = H.run_scripts(chk, scripts, group, group)
+        handle_rejections(chk, rej, group, cov)
+        tot_tr += n; tot_ev += e; tot_st += st; kinds |= k
+        all_scripts += scripts
     cov.update({
         "traces_validated_against_impl": tot_tr, "trace_events": tot_ev, "trace_validation_states": tot_st,
         "tlc_behaviours_replayed": nbeh, "scripts_run": len(all_scripts), "evaluations": tot_tr,
         "distinct_nontrivial": len({json.dumps({k: s[k] for k in ("q", "m", "maxBytes", "nodir", "gens")}, sort_keys=True)
                                     for s in all_scripts if sum(len(g["a"]) for g in s["gens"]) >= 2}),
-        "rule": "scripts = acceptor/consumer projection of TLC -simulate behaviours of HybridBuffer (6 chunks, sizes 1-3, 3 generations) at four settings of (queue capacity, memory window, byte limit, directory usable) plus seeded random scripts; non-trivial = at least two accepts; distinct by content",
+        "rule": "scripts = acceptor/consumer projection of TLC -simulate behaviours of HybridBuffer (6 chunks, sizes 1-3, 3 generations) at four settings of (queue capacity, memory window, byte limit, directory usable) plus seeded random scripts, stop stories with a consumer that is not reading at every fill level, and a fifth setting (queue of 1 under a byte limit of 6) in which chunks that are already saved are dropped by queue overflow; non-trivial = at least two accepts; distinct by content",
         "event_kinds_seen": sorted(kinds), "samples": [all_scripts[0], all_scripts[-1]],
     })
     chk.assumptions += [
